@@ -21,7 +21,7 @@ def seeds():
 
 
 def seedstats():
-    rnd = {'a': 1, 'b': 1, 'c': 2, 'd': 2, 'e': 3, 'f': 3, 'g': 4, 'h': 4, 'i': 5, 'j': 5}
+    rnd = {'a': 1, 'b': 1, 'c': 2, 'd': 2, 'e': 3, 'f': 3, 'g': 4, 'h': 4, 'i': 5, 'j': 5, 'k': 6, 'l': 6, 'm': 7, 'n': 7}
     tab = {}
     for d in sorted(glob.glob(os.path.join(here, 'seeded', '*'))):
         m = json.load(open(os.path.join(d, 'meta.json')))
